@@ -880,7 +880,7 @@ def run(ctx):
     for p in rng.sample(sels, min(len(sels), per)):
       add('selector/' + fk, s, p, gen_pop(rng, s, rng.choice([0, 1, 3, 5, 6]), fitness=rng.random() < 0.9))
   # (B) random operator expressions of depth <= 4 built with the real overloads
-  for _ in range(ctx.scale(500, 8000)):
+  for _ in range(ctx.scale(500, 6000)):
     fk, s = rng.choice(fam)
     add('expression/' + fk, s, gen_expr(rng, rng.choice([2, 3, 3, 4, 4])), gen_pop(rng, s, rng.choice([0, 1, 2, 3, 4, 6]), fres=rng.randrange(12)))
   # (W) systematic weights: ties, near-ties, zeros, one dominant
@@ -909,7 +909,7 @@ def run(ctx):
   if cur: slices.append(cur)
   done, results, skipped = [], [], 0
   for k, sl in enumerate(slices):
-    if not ctx.thorough and k > 0 and time.time() - ctx.t0 > 45.0:
+    if k > 0 and time.time() - ctx.t0 > (720.0 if ctx.thorough else 45.0):
       skipped += len(sl); continue
     results += run_jobs(process_case, sl, nproc); done += sl
   if skipped:
@@ -943,19 +943,19 @@ def run(ctx):
   ctx.extra['crossover_sweep'] = dict(exhaustive=True, max_values=ctx.scale(4, 5), evaluations=crossover_sweep(ctx, ctx.scale(4, 5)),
                                       what='every pair of parent permutations x every pair of cutting points (PMX, Order) / every coin-flip sequence (Cycle): proposals are permutations')
   def left(full):
-    """Quick tier on a busy machine: the sweeps after the correspondence shrink with the time that is left (reported)."""
-    if ctx.thorough: return full
+    """On a busy machine the sweeps after the correspondence shrink with the time that is left (reported in the evidence)."""
     import time
-    f = min(1.0, max(0.15, (90.0 - (time.time() - ctx.t0)) / 45.0))
+    total, window = (1200.0, 500.0) if ctx.thorough else (90.0, 45.0)
+    f = min(1.0, max(0.15, (total - (time.time() - ctx.t0)) / window))
     if f < 1.0: ctx.extra.setdefault('wall_clock_guard_sweeps', []).append(round(f, 2))
     return max(1, int(full * f))
-  ctx.extra['evolution_loop_cases'] = evolution_loop_sweep(ctx, rng, left(ctx.scale(60, 600)))
+  ctx.extra['evolution_loop_cases'] = evolution_loop_sweep(ctx, rng, left(ctx.scale(60, 400)))
   ctx.extra['nsga2_operator_cases'] = nsga2_sweep(ctx, rng, left(ctx.scale(150, 2000)))
   ctx.extra['systematic_sweep'] = dict(mode_specs=len(mode_specs()), selectors=len(sels), mutators=len(muts), pointwise=len(recs), two_parent=len(recs2))
   # chained closure search, always on (small budget): sparse and dense constrained multi-choices, also beyond the model's 8 candidates
   chain_specs = [s for s in sparse_specs(12) if len(s[1]) == 1] + [('S', [C(2, [E] * 3, True, False, 'm')]), ('S', [C(3, [E] * 3, True, True, 'm')])]
-  chain_search(ctx, rng, chain_specs, CHAIN_OPS[:2], ctx.scale(2, 24), left(ctx.scale(25, 60)), 'always/mutators')
-  chain_search(ctx, rng, rng.sample(chain_specs, ctx.scale(6, len(chain_specs))), CHAIN_OPS[2:], ctx.scale(1, 8), left(ctx.scale(15, 40)), 'always/recombinators')
+  chain_search(ctx, rng, chain_specs, CHAIN_OPS[:2], ctx.scale(2, 12), left(ctx.scale(25, 50)), 'always/mutators')
+  chain_search(ctx, rng, rng.sample(chain_specs, ctx.scale(6, len(chain_specs))), CHAIN_OPS[2:], ctx.scale(1, 4), left(ctx.scale(15, 30)), 'always/recombinators')
   # targeted: when the correspondence of a randomised operator broke and nothing failed yet, chain the operators of the
   # disagreeing cases on their own specifications (and on the sparse family) over many seeds and generations
   if ctx.is_broken() and not ctx.hits and (bad or src_changed):
@@ -1277,7 +1277,7 @@ def weight_cases(ctx, rng):
   """Selector-level cases on populations whose fitness values come from the weight alphabet: Proportional / Sample with the
   fitness itself and fitness + 0.25 as weights, Top / Bottom with and without clusters, n from 0 to 2 * len."""
   out = []
-  for _ in range(ctx.scale(500, 6000)):
+  for _ in range(ctx.scale(500, 4000)):
     ln = rng.randint(2, 6)
     kind = rng.random()
     if kind < 0.2: fits = [rng.choice([1, 5, 5, 4])] * ln                                     # all equal
